@@ -111,6 +111,25 @@ def rarg(r):
     return r if isinstance(r, int) else float(r)
 
 
+def call_split(die, r, n, style):
+    """split_refinable_regions with positional / keyword arguments, n left to its default when it is 1"""
+    if style == "kw":
+        return die.split_refinable_regions(aspect_ratio=rarg(r), n=n)
+    if style == "default-n" and n == 1:
+        return die.split_refinable_regions(rarg(r))
+    return die.split_refinable_regions(rarg(r), n)
+
+
+def call_grid(die, nrows, ncols, style):
+    if style == "kw":
+        return die.initial_grid(ncols=ncols, nrows=nrows)
+    return die.initial_grid(nrows, ncols)
+
+
+def gen_style(rng):
+    return rng.choice(["pos", "pos", "pos", "kw", "default-n"])
+
+
 def gen_n(rng):
     x = rng.random()
     if x < 0.03:
@@ -194,7 +213,8 @@ def gen_history(rng):
     form = "text"
     if not regions and rng.random() < 0.4:
         form = rng.choice(["string", "dict"])
-    return {"kind": "hist", "W": W, "H": H, "regions": regions, "fixed": fixed, "ops": out, "dieform": form}
+    return {"kind": "hist", "W": W, "H": H, "regions": regions, "fixed": fixed, "ops": out, "dieform": form,
+            "style": gen_style(rng)}
 
 
 def gen_case(rng):
@@ -204,7 +224,8 @@ def gen_case(rng):
     x = (x - 0.36) / 0.64
     if x < 0.62:
         W, H, regions, fixed = gen_layout(rng)
-        return {"kind": "split", "W": W, "H": H, "regions": regions, "fixed": fixed, "r": gen_r(rng), "n": gen_n(rng)}
+        return {"kind": "split", "W": W, "H": H, "regions": regions, "fixed": fixed, "r": gen_r(rng), "n": gen_n(rng),
+                "style": gen_style(rng)}
     if x < 0.80:
         if rng.random() < 0.85:
             den = rng.choice([1, 1, 2, 4])
@@ -216,7 +237,8 @@ def gen_case(rng):
         ncols = rng.choice([0, -2, 10]) if rng.random() < 0.06 else rng.randrange(1, 9)
         if rng.random() < 0.04:
             nrows, ncols = rng.choice([(10, 10), (16, 16), (1, 100), (33, 2), (9, 7), (17, 15)])
-        return {"kind": "grid", "W": W, "H": H, "regions": regions, "fixed": fixed, "nrows": nrows, "ncols": ncols}
+        return {"kind": "grid", "W": W, "H": H, "regions": regions, "fixed": fixed, "nrows": nrows, "ncols": ncols,
+                "style": gen_style(rng)}
     # direct call of split_rectangles on a list of rectangles with arbitrary attributes
     W, H, regions, fixed = gen_layout(rng, maxk=5)
     rects = []
@@ -343,9 +365,9 @@ def run_history(case):
                 SKIPPED["float-boundary"] += 1
                 obs["cut"] = i
                 break
-            call = lambda: die.split_refinable_regions(rarg(op[1]), op[2])
+            call = lambda: call_split(die, op[1], op[2], case.get("style"))
         elif op[0] == "grid":
-            call = lambda: die.initial_grid(op[1], op[2])
+            call = lambda: call_grid(die, op[1], op[2], case.get("style"))
         else:
             call = None
         if call is not None:
@@ -397,9 +419,9 @@ def run_impl_(case):
             return {"status": "boundary"}
         try:
             if case["kind"] == "split":
-                die.split_refinable_regions(rarg(case["r"]), case["n"])
+                call_split(die, case["r"], case["n"], case.get("style"))
             else:
-                die.initial_grid(case["nrows"], case["ncols"])
+                call_grid(die, case["nrows"], case["ncols"], case.get("style"))
             status = "ok"
         except AssertionError:
             status = "assert"
@@ -734,7 +756,7 @@ def nontrivial(case):
 
 
 def run(ctx, out, replay=None):
-    n = 800 if ctx.quick() else 8000
+    n = 800 if ctx.quick() else 6000
     out.rule = ("real Die objects from generated descriptions (0-4 disjoint lattice-aligned blockages / specialised regions / "
                 "fixed rectangles on small, elongated and large dyadic dies), limits 1.42 1.5 1.7 2 3 10 (+ edge values around the "
                 "assert), n in 1..64 (+ non-positive), grids 1..8 x 1..8 (+ refused shapes, non-empty dies), direct calls of "
